@@ -64,7 +64,7 @@ def binary_stochastic_quantize(v: jnp.ndarray,
   v = jnp.nan_to_num((v - v_min) / (v_max - v_min))
   v = jnp.maximum(0., jnp.minimum(v, 1.))
   rand = jax.random.uniform(key=rng, shape=v.shape)
-  return jnp.where(rand > v, v_min, v_max)
+  return jnp.where(rand >= v, v_min, v_max)
 
 
 def uniform_stochastic_quantize(v: jnp.ndarray,
